@@ -46,6 +46,14 @@ def run(ctx):
             if not np.allclose(ana, series, rtol=2e-3, atol=0):
                 i = int(np.argmax(np.abs(ana / series - 1)))
                 viol(f"{window}/window-derivative/small-argument", f"{window}.dw_dlnkr at kR={xs[i]:.4g} is {ana[i]:.6g}, the true derivative is {series[i]:.6g}")
+            # large arguments (fast oscillation, envelope 3/kR for the top-hat): the derivative written out independently
+            xl = 10 ** np.linspace(np.log10(60.0), np.log10(5000.0), 400)
+            al = np.asarray(f.dw_dlnkr(xl), float)
+            tl = (9 * xl * np.cos(xl) + 3 * (xl ** 2 - 3) * np.sin(xl)) / xl ** 3 if window == "TopHat" else -xl ** 2 * np.exp(-xl ** 2 / 2)
+            ncase += len(xl)
+            if not np.allclose(al, tl, rtol=1e-6, atol=1e-10):
+                i = int(np.argmax(np.abs(al - tl)))
+                viol(f"{window}/window-derivative/large-argument", f"{window}.dw_dlnkr at kR={xl[i]:.5g} is {al[i]:.6g}, the derivative of the window w.r.t. ln(kR) is {tl[i]:.6g}", {"kr": float(xl[i])})
             # at and below the top-hat's small-argument guard the closed form is replaced by a constant: absolute comparison with the series
             if window == "TopHat":
                 xt = np.concatenate([10 ** np.linspace(-8, -3, 30), [1e-3, 9.99e-4, 5e-4]])
